@@ -129,7 +129,7 @@ def apply_noise(op, env, res=None):
     if k == "np_seed":
         numpy.random.seed(int(op["v"]) % (2 ** 32))
     elif k == "np_draw":
-        numpy.random.standard_normal(int(op["v"]))
+        numpy.random.standard_normal(min(1000, int(op["v"])))
         numpy.random.randint(0, 10, size=2)
     elif k == "np_set_state":
         rs = numpy.random.RandomState(int(op["v"]) % (2 ** 32))
